@@ -35,6 +35,7 @@ class Injector:
         self.fault = fault
         self.n = 0
         self.log = []
+        self.dll_fail = False   # the archive library's next operation takes effect, then REPORTS failure
 
     def wrap(self, name, fn, partial=None):
         def inner(*a, **kw):
@@ -45,6 +46,12 @@ class Injector:
                 mode = self.fault[1]
                 if mode == "before":
                     raise Injected("injected before %s" % name)
+                if mode == "reports-failure":
+                    self.dll_fail = True
+                    try:
+                        return fn(*a, **kw)
+                    finally:
+                        self.dll_fail = False
                 if mode == "midway" and partial is not None:
                     partial(*a, **kw)
                     raise Injected("injected midway %s" % name)
@@ -53,6 +60,47 @@ class Injector:
             return fn(*a, **kw)
 
         return inner
+
+
+class DllProxy:
+    """the archive library seen by the wrapper: while `inj.dll_fail` is set, the operation is carried out and its
+    return value replaced by 0 (StormLib's "failed"), as when the library fails after writing its output"""
+
+    def __init__(self, dll, inj):
+        object.__setattr__(self, "_dll", dll)
+        object.__setattr__(self, "_inj", inj)
+
+    def __getattr__(self, name):
+        real = getattr(self._dll, name)
+        inj = self._inj
+        if not inj.dll_fail or not name.startswith("SFile"):
+            return real            # the library's own function object (the wrapper sets argtypes / restype on it)
+        inj.dll_fail = False
+        return FailingCall(real)
+
+
+class FailingCall:
+    def __init__(self, real):
+        object.__setattr__(self, "_real", real)
+
+    def __setattr__(self, k, v):
+        setattr(self._real, k, v)
+
+    def __getattr__(self, k):
+        return getattr(self._real, k)
+
+    def __call__(self, *a):
+        self._real(*a)
+        return 0
+
+
+class RefProxy:
+    def __init__(self, ref, inj):
+        self._ref = ref
+        self.stormlib_dll = DllProxy(ref.stormlib_dll, inj)
+
+    def __getattr__(self, name):
+        return getattr(self._ref, name)
 
 
 def partial_copy(src, dst, *a, **kw):
@@ -303,6 +351,7 @@ def main():
                 rich = RichChkEditor().replace_chk_section(RichTrigEditor.add_triggers(new, trig), rich)
         inj = Injector(tuple(spec["fault"]) if spec.get("fault") else None)
         # install: every StormLib call, every copy / replace / remove in the IO modules
+        wrapper._stormlib = RefProxy(wrapper._stormlib, inj)
         for name in ("open_archive", "close_archive", "extract_file", "add_file", "compact_archive"):
             setattr(wrapper, name, inj.wrap("stormlib." + name, getattr(wrapper, name)))
         for mod in (sio, aio):
